@@ -229,6 +229,11 @@ func init() {
 		if !s.waitIdleMin(1500*time.Millisecond, 30*time.Second, nRego) {
 			return map[string]any{"error": "server did not become idle after initialize"}, nil
 		}
+		if os.Getenv("VERIF_LSP_TRACE") != "" {
+			af := s.ls.VerifAggregateFiles()
+			sort.Strings(af)
+			fmt.Fprintf(os.Stderr, "[agg after startup] %v files=%v counts=%v keys=%v\n", af, s.ls.VerifCachedFiles(), s.ls.VerifAggregateCounts(), s.ls.VerifAggregateKeys())
+		}
 		uri := func(rel string) string { return "file://" + filepath.Join(root, rel) }
 		contents := map[string]string{} // what the workspace contains now (editor view)
 		for k, v := range files {
@@ -282,6 +287,11 @@ func init() {
 				time.Sleep(time.Duration(num(ev, "ms")) * time.Millisecond)
 			}
 			results = append(results, r)
+			if os.Getenv("VERIF_LSP_TRACE") != "" {
+				af := s.ls.VerifAggregateFiles()
+				sort.Strings(af)
+				fmt.Fprintf(os.Stderr, "[agg after %s %s] %v\n", str(ev, "kind"), f, af)
+			}
 			if d := num(ev, "pauseMs"); d > 0 {
 				time.Sleep(time.Duration(d) * time.Millisecond)
 			}
@@ -291,6 +301,8 @@ func init() {
 		idle := s.waitIdle(1800*time.Millisecond, 45*time.Second)
 		got := s.snapshot()
 		orphanMods, orphanAggs := s.ls.VerifCacheOrphans()
+		aggFiles := s.ls.VerifAggregateFiles()
+		sort.Strings(aggFiles)
 		sort.Strings(orphanMods)
 		sort.Strings(orphanAggs)
 		// fresh server on the same final contents
@@ -326,7 +338,7 @@ func init() {
 		}
 		sort.Strings(names)
 		return map[string]any{"idle": idle, "freshIdle": idle2, "published": got, "fresh": want, "files": names, "results": results,
-			"orphanModules": orphanMods, "orphanAggregates": orphanAggs}, nil
+			"orphanModules": orphanMods, "orphanAggregates": orphanAggs, "aggregateFiles": aggFiles}, nil
 	})
 }
 
